@@ -273,3 +273,44 @@ func runC10M(c *Ctx) {
 		c.c10Canvas(label, cpu, shapes, 0)
 	}
 }
+
+// Stream "c10r": the workload of the race-detector build (go/harness/race_c10.sh).  Every parallel entry point once more:
+// the mesh scans / modifies on the fixed edge pairs, the three AddField variants on fields spanning 8, 4 and 2 blocks (block
+// allocation under chunkMutex while other workers read the block list), and MarchParallel on the smallest of them.
+// Only the race detector's report matters; lines are emitted as usual so the run can also be diffed by hand.
+func runC10R(c *Ctx) {
+	for _, p := range [][2]int{{10, 3}, {0, 4}, {3, 7}, {64, 17}, {33, 16}, {2, 2}, {63, 5}} {
+		c.c10Pair(p[0], p[1])
+	}
+	for _, size := range []int{2, 4} {
+		c.c10EmptyStrip(size)
+	}
+	type place struct{ x, y, z float64 }
+	places := []place{{100, 100, 100}, {0, 0, 0}, {100, 100, 50}, {100, 40, 60}}
+	for k := 0; k < c.N; k++ {
+		for pi, p := range places {
+			sh := c10Shape{kind: "l1", cx: p.x, cy: p.y, cz: p.z, r: 3, ax: 1, ay: 2, az: 1}
+			smp := &c10Sampler{on: true}
+			for _, par2 := range []bool{false, true} {
+				cv := marching.NewMarchingCanvas(1)
+				f := sh.field(smp, 1)
+				res := Guard(func() string {
+					if par2 {
+						cv.AddFieldParallel2(f)
+					} else {
+						cv.AddFieldParallel(f)
+					}
+					return "ok"
+				})
+				c.Note("race-addfield-" + res)
+				if pi == len(places)-1 && !par2 && k == 0 {
+					smp.on = false
+					_, r := c10March(cv, 0, true)
+					c.Note("race-marchparallel-" + r)
+				}
+			}
+		}
+	}
+}
+
+func init() { streams["c10r"] = runC10R }
